@@ -154,6 +154,18 @@ def C15(tier, seed):
                            "may succeed), failed probes to be atomic, and the unsubstituted instruction to succeed; thorough tier substitutes every candidate"}
 
 
+def C14(tier, seed):
+    drivers = []
+    for tk in ("spl", "t22"):
+        drivers += hist_jobs(f"hist_af_{tk}_", seed, 4 if tier == "quick" else 8, 5 if tier == "quick" else 40, 200 if tier == "quick" else 300, tk, ["--adaptive", "1"])
+    drivers += matrix_jobs("matrix_", tier, seed, "0", "0", 0, 0, shards_q=1, shards_t=1)
+    return {"active": ["C14"], "drivers": drivers, "models": [],
+            "must_exercise": {"swap": 50, "swap_v2": 50},
+            "explanation": "adaptive-fee pools with random valid constants: reference update (filter / decay / one-hour reset), accumulator = min(volRef + |ref - group|*10^4, max), "
+                           "rate = min(static + ceil(factor*(acc*groupSize)^2/10^13), 10%) required for EVERY tick group each recorded step's price segment spans (declarative, independent "
+                           "of the skip optimisation), stored accumulator of the end group or the adjacent one in trade direction, major-swap timestamp, trade-enable time, zero control factor = static"}
+
+
 def C16(tier, seed):
     drivers = hist_jobs("hist_t22fee_", seed, 5 if tier == "quick" else 16, 4 if tier == "quick" else 40, 200 if tier == "quick" else 300, "t22fee")
     drivers += fn_jobs("tfee", tier, seed, 400, 8000, shards_q=2, shards_t=8)
@@ -214,4 +226,4 @@ def C08(tier, seed):
     return p
 
 
-PLANS = {"C01": C01, "C02": C02, "C03": C03, "C04": C04, "C15": C15, "C16": C16, "C05": C05, "C06": C06, "C07": C07, "C11": C11, "C12": C12, "C13": C13, "C08": C08, "C09": C09}
+PLANS = {"C01": C01, "C02": C02, "C03": C03, "C04": C04, "C14": C14, "C15": C15, "C16": C16, "C05": C05, "C06": C06, "C07": C07, "C11": C11, "C12": C12, "C13": C13, "C08": C08, "C09": C09}
